@@ -153,6 +153,9 @@ impl BufReader {
 
 // --- encryptor: `Arc<EncryptorKind>` -> `Encryptor`. Only reachable under `encryptor is Some`, which every contract
 // of this unit excludes; the stubs exist so that the extracted text type-checks. ------------------------------------
+// NOT linked (link pass 2): contract-less and unreachable here. The real `EncryptorKind::decrypt` (unit encryption,
+// [C19.undecryptable.err.kind]) is under contract only for `data.len() >= 12` and PANICS on a shorter record (`&data[0..12]`,
+// sdk/src/utils/crypto.rs): that precondition matters for [C11.total] in the ENCRYPTED configuration, which this unit does not claim.
 #[verifier::external_body]
 pub struct Encryptor { _p: () }
 impl Encryptor {
@@ -174,14 +177,32 @@ pub uninterp spec fn decodable(c: Seq<u8>) -> bool;
 #[verifier::external_body]
 pub struct EntryCommand { _p: () }
 impl EntryCommand {
-    // assumed: to_bytes frames the payload as above (payload < 4 GiB) and what it writes is decodable
+    // "the payload of this command's journal form is at most u32::MAX bytes long" (EntryCommand is opaque here; DEFINED in unit
+    // journal_cmd as `cmd_payload(c).len() <= u32::MAX`, the `requires` of the real to_bytes). to_bytes writes `len() as u32` into the
+    // length word: a longer payload is journalled with a truncated length word (cmd_wf false, the loader then mis-frames the file).
+    // In the running server every command handed to `apply` is built from a request that arrived in one frame whose length word is
+    // a u32 (binary transports; HTTP bodies are bounded far lower), so its re-encoding is below 4 GiB; that argument is NOT
+    // mechanised: the precondition is carried by `FileState::apply` ([C11.apply-ok]) and discharged by nobody yet.
+    pub uninterp spec fn payload_fits(&self) -> bool;
+    // the journal form of the command (EntryCommand is opaque here; DEFINED in unit journal_cmd as `cmd_enc(c)` =
+    // le32(code) ++ le32(|payload|) ++ payload; the same name unit encryption uses). Only used to say WHICH bytes the appended entry
+    // carries ([C11.apply-ok.content]).
+    pub uninterp spec fn cmd_bytes(&self) -> Seq<u8>;
+
+    // to_bytes frames the payload as above (payload < 4 GiB) and what it writes is decodable
+    // LINKED: units/journal_cmd/lemmas.rs, harness [C13.link.journal.to_bytes] proves this contract from the real function (mirror edits
+    // there). The link added `requires self.payload_fits()`: the real function needs it, the stub had hidden it.
     #[verifier::external_body]
     pub fn to_bytes(&self) -> (r: ByteSeq)
-        ensures cmd_wf(r@), decodable(r@),
+        requires self.payload_fits(),
+        ensures cmd_wf(r@), decodable(r@), r@ == self.cmd_bytes(),
     { unimplemented!() }
 
     // EntryCommand::from_bytes slices `0..4`, `4..8`, `8..8 + length` (panics when out of range) and then runs the
     // per-command decoder on the payload.
+    // LINKED: units/journal_cmd/lemmas.rs, harness [C13.link.journal.from_bytes] (mirror edits there): these preconditions imply the ones
+    // the real function is under contract for. `decodable` is DEFINED there as exactly those (frame inside the buffer; for the token
+    // command its two inner lengths inside the payload); the SDK payload decoders below that stay total stubs in unit journal_cmd.
     #[verifier::external_body]
     pub fn from_bytes(bytes: ByteSeq) -> (r: Result<EntryCommand, IggyError>)
         requires
@@ -278,6 +299,10 @@ pub open spec fn entry_at(file: Seq<u8>, p: int, e: StateEntry) -> bool {
 // the extracted remainder `FileState::load_entries_from`, run on the file the persister appends to. Its contract is
 // the remainder's contract ([C11.shape.load_post]); used by `init`.
 impl FileState {
+    // LINKED: units/journal/lemmas.rs, harness [C11.link.journal.load_entries] proves this contract from the extracted remainder under
+    // the A-io hypotheses written out (the opened file is the persister's file, file_size its length); mirror edits there.
+    // Unit encryption extracts a DIFFERENT slice of the same function (`load_entries_decrypt`: one iteration's decrypt / re-frame /
+    // checksum block, both configurations) and does not use this stub: not comparable, nothing to link between the two.
     #[verifier::external_body]
     pub fn load_entries(&self) -> (r: Result<Vec<StateEntry>, IggyError>)
         requires self.encryptor is None,
@@ -288,6 +313,20 @@ impl FileState {
 // `f1` is `f0` followed by exactly one new well-formed, checksum-consistent entry carrying index n
 pub open spec fn appended(f0: Seq<u8>, f1: Seq<u8>, n: u64) -> bool {
     exists|e: StateEntry| f1 == f0 + #[trigger] enc(e) && e.index == n && e.checksum == crc_of(e) && entry_wf(e)
+}
+
+// the entry `apply(user_id, command)` builds for a journal of n entries: index n, consistent checksum, well-formed, the caller's
+// user id, the command's journal form `c`, no context
+pub open spec fn entry_for(e: StateEntry, n: u64, user_id: u32, c: Seq<u8>) -> bool {
+    e.index == n && e.checksum == crc_of(e) && entry_wf(e) && e.user_id == user_id && e.command@ == c && e.context@.len() == 0
+}
+// `f1` is `f0` followed by exactly that entry ...
+pub open spec fn appended_cmd(f0: Seq<u8>, f1: Seq<u8>, n: u64, user_id: u32, c: Seq<u8>) -> bool {
+    exists|e: StateEntry| f1 == f0 + #[trigger] enc(e) && entry_for(e, n, user_id, c)
+}
+// ... or by some prefix of its encoding (k == 0: nothing written; k == |enc(e)|: all of it; otherwise a torn write)
+pub open spec fn appended_part(f0: Seq<u8>, f1: Seq<u8>, n: u64, user_id: u32, c: Seq<u8>) -> bool {
+    exists|e: StateEntry, k: int| 0 <= k <= enc(e).len() && f1 == f0 + #[trigger] enc(e).subrange(0, k) && entry_for(e, n, user_id, c)
 }
 
 // ---- helper lemmas used by proof hints inside the extracted functions (proved here, nothing assumed) ------------------
